@@ -174,6 +174,20 @@ def main():
       viol.append({'key': 'C14:history-dependent', 'what':
                    'a second quantize() on the same Quantizer with equal arguments returns different bytes',
                    'input': inp})
+    # same Quantizer and recipe, but FIRST quantized with OTHER statistics
+    if stats is not None and not isinstance(out, Exception):
+      qx = quantizer.Quantizer(bytearray(mb), copy.deepcopy(rec))
+      try:
+        st_other = calibrate_all(qx, gg.random_inputs(mb, rng, 1, scale=3.0), viol, inp, check_mut=False)
+        qx.quantize(st_other)
+        a3 = sha(qx.quantize(copy.deepcopy(stats)).quantized_model)
+      except Exception as e:  # pylint: disable=broad-except
+        a3 = 'raise:' + type(e).__name__
+      dist['requantize_with_other_statistics'] += 1
+      if a3 != ref:
+        viol.append({'key': 'C14:history-dependent', 'what':
+                     'quantize(statistics B) on a Quantizer that has already quantized with statistics A '
+                     'differs from a fresh Quantizer given statistics B', 'input': inp})
     # dirty Quantizer: random history, then the target recipe
     qd = quantizer.Quantizer(bytearray(mb))
     hist = []
